@@ -19,7 +19,7 @@ import common
 import style_util as su
 from style_util import Cfg
 
-ALPHABET = list('at1#.-+()"\'$:!,{}@ %/A_0*[e\\=') + ['٣', '\n', 'é']
+ALPHABET = list('at1#.-+()"\'$:!,{}@ %/A_0*[e\\=') + ['٣', '\n', 'é', '\x0c', '\u2028', '\r']
 VALID = ['p10', 'm10-20', 'bd1-s#fc0', 'c#f.5!', 'p10+m10-20', 'trf-s(2, 3)', 'lg(to right, #0, #f00.5)', '@k-name10', 'pos:a',
          'bgc#f0', 'fz1.', 'p-10--20', 'm0-a', '!', 'p!', 'bxsh', 'gt', 'p10p', 'z10', 'opa.1', 'trf:rx', 'd:n', 'p${1}', 'p${1:foo}',
          'c#e7bc0b', 'animic', '--foo', 'p--foo:1', 'ff"Arial"', "cnt'x'", 'w100%', 'mt-.5e', 'anim-infinite', 'p1 2', 'bd(1)',
@@ -38,6 +38,8 @@ USER_TABLES = [
     {'mten': 'margin: 10px;', 'fsz': 'font-size', 'myCenterAwesome': 'body {\n\tdisplay: grid;\n}'},
     {'p': 'foo-bar:baz|qux', 'annii': 'a-b:${1:x} ${2}', 'raw': 'x ${1} y ${2:z} ${3'},
     {'gt': 'grid-template: repeat(2,auto) / repeat(auto-fit, minmax(250px, 1fr))', 'bxsh': 'box-shadow: var(--bxsh-${1})'},
+    {'x': 'a:b|', 'y': 'c-d:|', 'z': 'e: ;', 'p': 'padding:||1px'},
+    {'ff': 'form\x0cfeed ${1}', 'ls': 'a\u2028b ${1:x\x0by}', 'q': 'quotes:"a\x0cb"'},
 ]
 
 
@@ -140,7 +142,7 @@ def check_oracle(ctx, cases, impl, tag):
 def run_css(ctx):
     ok = ctx.build(['props/C07Css.vo', 'run/StyleRun.vo', 'run/StyleShow.vo'])
     if ok:
-        ctx.obligations('props/C07Css.v')
+        su.obligations(ctx, 'props/C07Css.v')
     stage_cases, full, (n_ex, n_alpha, n_full) = gen(ctx)
     rule = ('css: (a) every string up to length %d over a %d..26-character stylesheet alphabet through expand(type=stylesheet) '
             '[default and @@value scope], tied to the extracted tokenizer+parser model; (b) corpus + every string up to length %d '
